@@ -506,7 +506,7 @@ Proof.
   intros H. unfold do_rewrite.
   destruct (text_eqb n (slice cur r)); [exists (slice cur r); symmetry; apply splice_slice; exact H|].
   destruct (ignored (ignore_lines cur) r); [exists (slice cur r); symmetry; apply splice_slice; exact H|].
-  destruct (texts_eqb (sig_lines n) (sig_lines (slice cur r)));
+  destruct (ws_only_change n (slice cur r));
     [exists (slice cur r); symmetry; apply splice_slice; exact H|].
   match goal with |- context [first_valid _ _ _ _ _ ?c] => set (choice := c) end.
   assert (Hc : exists n', choice = splice Z cur r n').
@@ -730,3 +730,133 @@ Theorem subn_schedule_disjoint (T : Type) (teqb : T -> T -> bool) (tcmp : T -> T
   ForallOrdPairs (fun a b => overlaps (rrng (snd a)) (rrng (snd b)) = false)
                  (subn_schedule T teqb tcmp ilines items).
 Proof. apply schedule_disjoint. Qed.
+
+(* ======================================================================================== *)
+(* the "whitespace-only change" guard of _do_rewrite                                          *)
+(* ======================================================================================== *)
+Open Scope nat_scope.
+
+Lemma text_eqb_spec (a : text) : forall b, text_eqb a b = true <-> a = b.
+Proof.
+  induction a as [|x a IH]; intros [|y b]; simpl; try (split; [discriminate | intros E; discriminate]).
+  - split; reflexivity.
+  - rewrite andb_true_iff, Z.eqb_eq, IH. split; [intros [-> ->]; reflexivity | intros E; inversion E; auto].
+Qed.
+
+Lemma texts_eqb_spec (a : list text) : forall b, texts_eqb a b = true <-> a = b.
+Proof.
+  induction a as [|x a IH]; intros [|y b]; simpl; try (split; [discriminate | intros E; discriminate]).
+  - split; reflexivity.
+  - rewrite andb_true_iff, text_eqb_spec, IH.
+    split; [intros [-> ->]; reflexivity | intros E; inversion E; auto].
+Qed.
+
+(* the guard fires iff replacement and replaced code have the same rstripped non-blank lines *)
+Theorem ws_only_change_spec (n code : text) :
+  ws_only_change n code = true <-> sig_lines n = sig_lines code.
+Proof. unfold ws_only_change. apply texts_eqb_spec. Qed.
+
+(* rstrip only removes trailing white space: a non-blank line keeps its indentation *)
+Lemma lstrip_split (s : text) : exists pre, forallb is_space pre = true /\ s = pre ++ lstrip s.
+Proof.
+  induction s as [|c s IH]; [exists []; split; reflexivity|].
+  cbn [lstrip]. destruct (is_space c) eqn:E.
+  - destruct IH as [pre [Hp Hs]]. exists (c :: pre). split; [simpl; rewrite E; exact Hp|].
+    simpl. f_equal. exact Hs.
+  - exists []. split; reflexivity.
+Qed.
+
+Lemma lstrip_head (s : text) : match lstrip s with c :: _ => is_space c = false | [] => True end.
+Proof.
+  induction s as [|c s IH]; [exact I|]. cbn [lstrip]. destruct (is_space c) eqn:E; [exact IH | exact E].
+Qed.
+
+Lemma count_leading_sp_app (a b : text) :
+  (exists c, In c a /\ (c =? SP)%Z = false) -> count_leading_sp (a ++ b) = count_leading_sp a.
+Proof.
+  induction a as [|x a IH]; intros [c [Hc Ec]]; [destruct Hc|].
+  cbn [app count_leading_sp]. destruct (x =? SP)%Z eqn:Ex; [|reflexivity].
+  f_equal. apply IH. destruct Hc as [<-|Hc]; [congruence|]. exists c. split; assumption.
+Qed.
+
+Lemma nonblank_rev (l : text) : nonblank l = true -> lstrip (rev l) <> [].
+Proof.
+  unfold nonblank. intros H E.
+  destruct (lstrip_split (rev l)) as [pre [Hp Hs]]. rewrite E, app_nil_r in Hs.
+  assert (Hall : forallb is_space l = true).
+  { rewrite forallb_forall in *. intros x Hx. apply Hp. rewrite <- Hs. apply in_rev in Hx. exact Hx. }
+  clear -H Hall. induction l as [|c l IH]; [discriminate|].
+  simpl in Hall. apply andb_true_iff in Hall. destruct Hall as [Hc Hl].
+  cbn [lstrip] in H. rewrite Hc in H. apply IH; assumption.
+Qed.
+
+Lemma rstrip_keeps_indentation (l : text) :
+  nonblank l = true -> count_leading_sp (rstrip l) = count_leading_sp l.
+Proof.
+  intros H. unfold rstrip.
+  destruct (lstrip_split (rev l)) as [pre [Hp Hs]].
+  assert (El : l = rev (lstrip (rev l)) ++ rev pre).
+  { rewrite <- rev_app_distr, <- Hs, rev_involutive. reflexivity. }
+  rewrite El at 2. symmetry. apply count_leading_sp_app.
+  pose proof (lstrip_head (rev l)) as Hh. pose proof (nonblank_rev l H) as Hne.
+  destruct (lstrip (rev l)) as [|c tl]; [contradiction|].
+  exists c. split; [apply in_rev; rewrite rev_involutive; left; reflexivity|].
+  destruct (c =? SP)%Z eqn:E; [|reflexivity].
+  apply Z.eqb_eq in E. subst c. discriminate.
+Qed.
+
+(* a skipped rewrite has, line by line, the indentation of the code it would have replaced: a change
+   of block structure (a statement moved out of / into a block) is never taken for white space *)
+Theorem skipped_keeps_indentation (n code : text) :
+  ws_only_change n code = true ->
+  map count_leading_sp (filter nonblank (lines_nk n))
+  = map count_leading_sp (filter nonblank (lines_nk code)).
+Proof.
+  intros H. apply ws_only_change_spec in H. unfold sig_lines in H.
+  apply (f_equal (map count_leading_sp)) in H. rewrite !map_map in H.
+  rewrite (map_ext_in (fun x => count_leading_sp (rstrip x)) count_leading_sp) in H.
+  - rewrite (map_ext_in (fun x => count_leading_sp (rstrip x)) count_leading_sp) in H; [exact H|].
+    intros l Hl. apply filter_In in Hl. apply rstrip_keeps_indentation, Hl.
+  - intros l Hl. apply filter_In in Hl. apply rstrip_keeps_indentation, Hl.
+Qed.
+
+(* the complete decision of _do_rewrite: it returns the text unchanged in exactly three situations,
+   otherwise it splices in the replacement (or "pass" for an empty one, or a re-indented copy) *)
+Theorem do_rewrite_decision (valid : text -> bool) (cur : text) (r : range) (n : text) :
+  let code := slice cur r in
+  (n = code \/ ignored (ignore_lines cur) r = true \/ sig_lines n = sig_lines code ->
+     do_rewrite valid cur (r, n) = cur)
+  /\ (n <> code -> ignored (ignore_lines cur) r = false -> sig_lines n <> sig_lines code ->
+      exists n', In n' (candidates n) /\ do_rewrite valid cur (r, n) = splice Z cur r n').
+Proof.
+  intros code. unfold do_rewrite. fold code. split.
+  - intros H. destruct (text_eqb n code) eqn:E1; [reflexivity|].
+    destruct (ignored (ignore_lines cur) r) eqn:E2; [reflexivity|].
+    destruct (ws_only_change n code) eqn:E3; [reflexivity|].
+    exfalso. destruct H as [H|[H|H]].
+    + apply text_eqb_spec in H. congruence.
+    + discriminate.
+    + apply ws_only_change_spec in H. congruence.
+  - intros H1 H2 H3.
+    destruct (text_eqb n code) eqn:E1; [apply text_eqb_spec in E1; contradiction|].
+    rewrite H2.
+    destruct (ws_only_change n code) eqn:E3; [apply ws_only_change_spec in E3; contradiction|].
+    match goal with |- context [first_valid _ _ _ _ _ ?c] => set (choice := c) end.
+    assert (Hc : exists n', In n' (candidates n) /\ choice = splice Z cur r n').
+    { unfold choice, candidates. destruct n as [|c n].
+      - cbn [orb]. destruct (valid (splice_t cur r [])); [exists []; split; [left; reflexivity | reflexivity]|].
+        destruct (valid (splice_t cur r str_pass)).
+        + exists str_pass. split; [right; left; reflexivity | reflexivity].
+        + exists []. split; [left; reflexivity | reflexivity].
+      - cbn [orb]. exists (c :: n). split; [left; reflexivity | reflexivity]. }
+    destruct (_ && _); [|exact Hc].
+    assert (G : forall extras, incl extras [0; 4; 8; 12] ->
+              exists n', In n' (candidates n) /\ first_valid valid cur r n extras choice = splice Z cur r n').
+    { induction extras as [|x tl IH]; intros Hi; [exact Hc|].
+      cbn [first_valid]. destruct (valid (splice_t cur r (extra_indented x n))).
+      - exists (extra_indented x n). split; [|reflexivity].
+        unfold candidates. right. apply in_or_app. right.
+        apply (in_map (fun x => extra_indented x n)). apply Hi. left. reflexivity.
+      - apply IH. intros y Hy. apply Hi. right. exact Hy. }
+    apply G. apply incl_refl.
+Qed.
